@@ -42,10 +42,12 @@ const (
 	KRunDefers
 	KEnter // inlined callee entered
 	KLeave // inlined callee left
+	KMapUpdate
+	KLookup
 )
 
 func (k Kind) String() string {
-	return [...]string{"call", "recv", "send", "close", "store", "load", "assume", "return", "panic", "loopback", "go", "defer", "select", "select-default", "rundefers", "enter", "leave"}[k]
+	return [...]string{"call", "recv", "send", "close", "store", "load", "assume", "return", "panic", "loopback", "go", "defer", "select", "select-default", "rundefers", "enter", "leave", "mapupdate", "lookup"}[k]
 }
 
 type Rel int
@@ -422,6 +424,23 @@ func (en *enum) instrs(st *state, b *ssa.BasicBlock, from int) {
 				st.mem[a] = val
 			}
 			st.events = append(st.events, Event{Kind: KStore, Instr: ins, Fn: fr.fn, Depth: fr.depth, Addr: addr, Val: val})
+		case *ssa.MapUpdate:
+			st.events = append(st.events, Event{Kind: KMapUpdate, Instr: ins, Fn: fr.fn, Depth: fr.depth, Addr: st.resolve(ins.Map), Val: st.resolve(ins.Value), Chan: st.resolve(ins.Key)})
+		case *ssa.Lookup:
+			ev := Event{Kind: KLookup, Instr: ins, Fn: fr.fn, Depth: fr.depth, Addr: st.resolve(ins.X), Chan: st.resolve(ins.Index), Result: ins, CommaOk: ins.CommaOk}
+			if ins.CommaOk {
+				ev.Result = nil
+				for _, r := range *ins.Referrers() {
+					if ex, ok := r.(*ssa.Extract); ok {
+						if ex.Index == 0 {
+							ev.Result = ex
+						} else {
+							ev.OkVal = ex
+						}
+					}
+				}
+			}
+			st.events = append(st.events, ev)
 		case *ssa.Select:
 			ev := Event{Kind: KSelect, Instr: ins, Fn: fr.fn, Depth: fr.depth, Select: ins, NonBlocking: !ins.Blocking}
 			st.events = append(st.events, ev)
